@@ -11,6 +11,7 @@ VERIF = os.path.dirname(os.path.dirname(os.path.abspath(__file__)))
 REPO = os.path.realpath(os.environ.get("VERIF_REPO", "/repo"))
 
 _SCRATCH = None
+_OWNER = [None]
 
 
 def scratch_root():
@@ -22,12 +23,21 @@ def scratch_root():
             else os.environ.get("TMPDIR", "/tmp")
         _SCRATCH = tempfile.mkdtemp(prefix="verif-sasmodels-", dir=base)
         owner = os.getpid()
+        _OWNER[0] = owner
 
         def _cleanup(path=_SCRATCH, owner=owner):
             if os.getpid() == owner:
                 shutil.rmtree(path, ignore_errors=True)
         atexit.register(_cleanup)
     return _SCRATCH
+
+
+def cleanup():
+    """Remove this invocation's scratch directory (main exits with os._exit)."""
+    global _SCRATCH
+    if _SCRATCH is not None and os.getpid() == _OWNER[0]:
+        shutil.rmtree(_SCRATCH, ignore_errors=True)
+        _SCRATCH = None
 
 
 def ensure_repo_on_path():
